@@ -54,7 +54,8 @@ func (s *Struct) Assign(gen Generator, ctx *MethodContext, assignTo *AssignTo, s
 		if fieldMapping.Ignore {
 			continue
 		}
-		if !targetField.Exported() && ctx.Conf.IgnoreUnexported {
+		// an explicit goverter:map for the field is not dropped by ignoreUnexported
+		if !targetField.Exported() && ctx.Conf.IgnoreUnexported && fieldMapping.Source == "" && fieldMapping.Function == nil {
 			continue
 		}
 
